@@ -20,6 +20,7 @@ JOBS = {
 }
 SPEC = {
     "level": "exploration",
+    "dead_worker_is_violation": True,
     "level_text": 'Exploration: completion monitor on the real calls at the default recursion limit for 14 size families up to 5 000 (quick) / 10 000 (thorough) atoms, a sweep of every family at every size 1..40, and a stack-depth monitor that would steer to the critical size if depth grew with n. A watchdog firing is inconclusive, never a violation.',
     "technique": "completion monitor on canonicalize/serialize/parse for size families, steered by a sys.setprofile stack-depth monitor; verdict only from a real exception at the default recursion limit",
     "rule": ("cases: one subprocess per (family, size): paths, ladders, combs, caterpillars, polymers -[CH2-CHCl]-, peptide-like backbones, cycles, n x H2, n isolated atoms of all elements, "
@@ -199,7 +200,14 @@ def run(ctx):
     ctx.maxi("max_rss_mb", resource.getrusage(resource.RUSAGE_SELF).ru_maxrss // 1024)
 
 
+def case_of_shard(tier, shard):
+    fam, n = JOBS[tier][shard]
+    return {"family": fam, "n": n} if fam not in ("steer", "small-sweep") else None
+
+
 def replay(ctx, w):
     bridge.import_tucan()
+    if not w.get("case"):
+        return
     fam, n = w["case"]["family"], w["case"]["n"]
     record(ctx, run_pipeline(ctx, G.family(fam, n), f"{fam}{n}"), fam, n)
